@@ -169,8 +169,7 @@ def entries : List (String × IO UInt32) :=
    ("C16sw", runModel (mk SendWaker.proto parseSendWaker)),
    ("C16open", runModel (mk (LocalSid.proto true) parseOpen)),
    ("C16open0", runModel (mk (LocalSid.proto false) parseOpen)),
-   ("C16par", runModel (mk (Params.proto true) parseParams)),
-   ("C16par0", runModel (mk (Params.proto false) parseParams)),
+   ("C16par", runModel (mk Params.proto parseParams)),
    ("C16keys", runModel (mk (Keys.proto false) parseKeys)),
    ("C16keys1", runModel (mk (Keys.proto true) parseKeys)),
    ("C16dg", runModel (mk Dgram.proto parseDgram)),
